@@ -46,6 +46,7 @@ struct Gen {
   void read_op(double p_int = 0.25, int maxrep = 4) {
     if (g.chance(p_int)) {
       Rec &r = op(g.chance(0.2) ? "read_filter" : "read_int"); int word = g.chance(0.5) ? 2 : 1; if (g.chance(0.04)) word = g.chance(0.5) ? 0 : -1;
+      if (r.s("kind") == "read_filter" && g.chance(0.5)) { static const double gains[] = {4.0, 1048576.0, -2.0, 65536.0, 0.25}; r.setf("gain", gains[g.below(5)]); }
       r.set("word", word).set("sgned", (int64_t)g.below(2)).set("be", (int64_t)g.below(2));
       double u = g.unit(); int nch = sr.ps.links[0]->r.ch; int frame = std::max(1, word) * nch;
       int len = u < 0.15 ? (int)g.below((uint64_t)frame) : u < 0.25 ? frame : u < 0.33 ? frame + 1 : u < 0.6 ? (int)g.range(1, 600) : (int)g.range(600, 8192);
@@ -72,7 +73,7 @@ struct Gen {
       Recipe r; int tries = 0; std::shared_ptr<Link> l;
       do { r = pool_recipe(c.master, g.below(pool), many_ch); if (r.trim && (prop == "C20" || prop == "C19" || prop == "C03" || prop == "C13" || prop == "C12" || prop == "C17")) r.trim += r.trim & 1; /* half rate is toggled in these histories: keep the cut on the even grid */ if (p_bs64 > 0 && g.chance(p_bs64)) { r.bs64 = 1; r.cut = 0; r.trim = 0; r.sig = g.chance(0.75) ? 6 : 1; r.n = std::max<int64_t>(r.n, 3000); } l = get_link(r); } while ((!l->ok || l->ref_err || r.n * r.ch > budget) && ++tries < 20);
       if (prop == "C17" && g.chance(0.03)) { Recipe z; z.ch = g.chance(0.7) ? 255 : 254; z.rate = 8000; z.q = 0.4; z.n = 1200 + 600 * (int64_t)g.below(3); z.sig = 2; z.seed = 7; z.ncomm = 1; auto lz = get_link(z); if (lz->ok && !lz->ref_err) { r = z; l = lz; } }   // the format's maximum channel count (the quick tier's recipe pool is too small to be sure of containing it)
-      if (prop != "C17" && prop != "C04" && g.chance(prop == "C20" ? 0.14 : 0.07)) {   // a hand-built link (craft.cpp): block-size and mode patterns the encoder never produces, genuine 64-sample short blocks; noise audio (so not for C17's arithmetic)
+      if (prop != "C04" && g.chance(prop == "C20" ? 0.14 : 0.07)) {   // a hand-built link (craft.cpp): block-size and mode patterns the encoder never produces, genuine 64-sample short blocks; noise audio with samples far outside +-1 (NaN samples are skipped by the integer oracle)
         static const long rates[] = {8000, 22050, 44100, 48000}; Recipe z; z.craft = 1; z.ch = (int)g.range(1, 3); z.rate = rates[g.below(4)]; z.seed = g.below(thorough ? 600 : 60); z.n = (int64_t)(20 + 30 * g.below(6)); z.ncomm = 1;
         auto lz = get_link(z); if (lz->ok && !lz->ref_err && lz->len > 0) { r = z; l = lz; } }
       if (!l->ok || l->ref_err) continue;
@@ -82,11 +83,11 @@ struct Gen {
       int pol = (int)g.below(6); int k = pol == 1 ? (int)g.range(1, 12) : pol == 4 ? (int)g.range(1, 6) : pol == 5 ? (int)g.range(200, 3000) : 4;
       if (r.trim) { pol = 1; k = std::max(2, r.tk); }
       if (r.bs64) { if (g.chance(0.75)) { pol = 1; k = (int)g.range(2, 8); } else { pol = g.chance(0.5) ? 0 : 3; k = 4; } }   // the rewritten link is only consistent when its first two audio packets share a page
-      long serial; do { serial = (long)g.below(1 << 30) - (g.chance(0.1) ? (1 << 29) : 0); } while (std::find(used.begin(), used.end(), serial) != used.end());
+      long serial; do { serial = (long)g.below(1 << 30) - (g.chance(0.1) ? (1 << 29) : 0); if (g.chance(0.08)) { static const long sp[] = {0, -1, 0x7fffffff, -2147483647L - 1, 1, -2}; serial = sp[g.below(6)]; } /* 0xffffffff, 0x80000000 ... as the 32-bit field reads */ } while (std::find(used.begin(), used.end(), serial) != used.end());
       if ((prop == "C03" || prop == "C13") && !used.empty() && g.chance(0.05)) serial = used[g.below(used.size())];   // damage: a serial number reused by a later link
       used.push_back(serial);
       lr.set("pol", pol).set("k", k).set("serial", serial);
-      if (g.chance(0.06) && (prop == "C10" || prop == "C03" || prop == "C13" || prop == "C09")) lr.set("foreign", 1).set("fserial", serial ^ 0x5a5a5);
+      if (g.chance(0.06) && (prop == "C10" || prop == "C03" || prop == "C13" || prop == "C09")) lr.set("foreign", (int64_t)(g.chance(0.5) ? 1 : g.range(2, 3))).set("fserial", serial ^ 0x5a5a5);
     }
     build_stream(p, sr);
     if (sr.ambiguous_cut) {   // a cut link must keep at least two audio pages, otherwise its start offset is undefined (see StreamRef::ambiguous_cut)
@@ -175,8 +176,10 @@ struct Gen {
   }
   void gen_lap() {
     int n = (int)g.range(2, thorough ? 14 : 8);
+    if (g.chance(0.2)) op("halfrate").set("flag", 1);   // both twins: the lap region and its window are those of the halved short block
     for (int i = 0; i < n; i++) {
       double u = g.unit();
+      if (g.chance(0.04)) op("halfrate").set("flag", (int64_t)g.below(2));
       if (u < 0.25) { seek_op("", false); if (g.chance(0.7)) read_op(0, 2); }
       else if (u < 0.32) { op("pcm_seek").set("a", g.chance(0.5) ? sr.total : std::max<int64_t>(0, sr.total - (int64_t)g.below(300))); if (g.chance(0.5)) read_op(0, 3); }
       else if (u < 0.42) { Rec &r = op("crosslap"); r.set("a", pick_pos()); if (g.chance(0.4)) r.set("hrb", (int64_t)g.below(2)); }
